@@ -6,7 +6,7 @@ import re
 
 from ..program import AnalysisError, walk_local, dotted
 from ..analysis import Spec, src, const_value
-from ..rules import (cond_branches, canon, cond_equiv, positional_args, substitute_locals, template_sites, GWF, EXC, mpt, need_func, stores_to, is_const, kw,
+from ..rules import (string_template, cond_branches, canon, cond_equiv, positional_args, substitute_locals, template_sites, GWF, EXC, mpt, need_func, stores_to, is_const, kw,
                      parent_map, raise_class, substitute_locals)
 from . import common, c18
 from .c12 import _first_exit
@@ -119,9 +119,18 @@ def pr_once(prog, an, rep):
                   f.qname + ': the PR goes from this branch to its target',
                   f.where(call), 'created with %s' % kws)
     # title embeds the parent id and the target
-    tv = [v for _, v in stores_to(f, 'title') if v is not None]
-    ok = len(tv) == 1 and isinstance(tv[0], ast.BinOp) and \
-        [src(a) for a in tv[0].right.elts][:2] == [
+    # the title handed to create_pull_request
+    tv = []
+    for n in creates:
+        for x in ast.walk(n.ast):
+            if isinstance(x, ast.Call) and \
+                    isinstance(x.func, ast.Attribute) and \
+                    x.func.attr == 'create_pull_request' and \
+                    kw(x, 'title') is not None:
+                tv.append(substitute_locals(f, kw(x, 'title')))
+    tt = string_template(tv[0]) if len(tv) == 1 else None
+    ok = tt is not None and \
+        [src(a) for a in tt[1]][:2] == [
             f.params[1] + '.id', 'self.dst_branch.name']
     rep.check(ok, 'C19.ARG.pr-once', f.qname + ': title names the parent '
               'PR and the target branch', f.where(), 'title is %s' %
@@ -406,47 +415,88 @@ def declined_cleanup(prog, an, rep):
             src(n.ast).endswith('.decline()')]
     rep.floor('C19 decline sites in handle_declined_pull_request',
               len(decl), 1)
-    conds = {
-        'status OPEN': lambda e: src(e) == "pr.status == 'OPEN'",
-        'source is this w/ name': lambda e: src(e) == 'pr.src_branch == name',
-        'destination is its target':
-            lambda e: src(e) == 'pr.dst_branch == dst_branch.name',
-    }
+    # roles: for <name>, <target> in zip(<names>, <targets>) where
+    # <targets> = job.git.cascade.dst_branches and <names> = ['w/<target
+    # version>/<source of this PR>' for each target]
+    job = f.params[0]
+    outer = None
+    for lp in walk_local(f.node, include_root=False):
+        if isinstance(lp, ast.For) and isinstance(lp.target, ast.Tuple) and \
+                len(lp.target.elts) == 2 and isinstance(lp.iter, ast.Call) \
+                and src(lp.iter.func) == 'zip' and len(lp.iter.args) == 2 \
+                and all(isinstance(a, ast.Name) for a in lp.iter.args):
+            outer = lp
+    rep.check(outer is not None, R, f.qname + ': one pass over (name, '
+              'target) pairs', f.where(), 'outer loop changed')
+    if outer is None:
+        return
+    nm, dv = (e.id for e in outer.target.elts)
+    names_v, dsts_v = (a.id for a in outer.iter.args)
+    names = [v for _, v in stores_to(f, names_v) if v is not None]
+    dsts = [canon(f, v) for _, v in stores_to(f, dsts_v) if v is not None]
+    ok = False
+    if len(names) == 1 and isinstance(names[0], ast.ListComp) and \
+            len(names[0].generators) == 1:
+        g = names[0].generators[0]
+        t = string_template(names[0].elt)
+        ok = src(g.iter) == dsts_v and not g.ifs and t is not None and \
+            t[0] == 'w/{}/{}' and \
+            src(t[1][0]) == src(g.target) + '.version' and \
+            canon(f, t[1][1]) == job + '.pull_request.src_branch'
+    rep.evaluated()
+    rep.check(ok and dsts == [job + '.git.cascade.dst_branches'], R,
+              f.qname + ': names range over this pull request\'s targets',
+              f.where(), '%s = %s over %s' % (
+                  names_v, [src(v) for v in names], dsts))
     for n in decl:
-        for label, pred in conds.items():
-            g = an.branch_nodes(f, pred, True)
+        call = [x for x in ast.walk(n.ast) if isinstance(x, ast.Call) and
+                isinstance(x.func, ast.Attribute) and
+                x.func.attr == 'decline'][0]
+        pr = src(call.func.value)
+        conds = {
+            'status OPEN': "%s.status == 'OPEN'" % pr,
+            'source is this w/ name': '%s.src_branch == %s' % (pr, nm),
+            'destination is its target':
+                '%s.dst_branch == %s.name' % (pr, dv),
+        }
+        for label, text in conds.items():
+            g = cond_branches(an, f, text, True)
             rep.evaluated()
             ok, path = c.must_pass(g, n.id)
             rep.check(ok and bool(g), R, '%s: declines only if %s' % (
                 f.qname, label), f.where(n), 'a pull request can be '
                 'declined without the condition "%s"' % label,
                 path=c.describe_path(path))
-    names = [v for _, v in stores_to(f, 'wbranch_names') if v is not None]
-    ok = len(names) == 1 and isinstance(names[0], ast.ListComp) and \
-        src(names[0].generators[0].iter) == 'dst_branches' and \
-        not names[0].generators[0].ifs
-    dsts = [src(v) for _, v in stores_to(f, 'dst_branches')
-            if v is not None]
-    rep.evaluated()
-    rep.check(ok and dsts == ['job.git.cascade.dst_branches'], R, f.qname +
-              ': names range over this pull request\'s targets', f.where(),
-              'wbranch_names = %s over %s' % ([src(v) for v in names],
-                                              dsts))
-    loops = [n for n in walk_local(f.node, include_root=False)
-             if isinstance(n, ast.For) and
-             src(n.iter) == 'zip(wbranch_names, dst_branches)']
-    rep.check(len(loops) == 1, R, f.qname + ': one pass over (name, target) '
-              'pairs', f.where(), 'outer loop changed')
+        # the pull requests examined are those of these very names
+        lp = [x for x in walk_local(outer, include_root=False)
+              if isinstance(x, ast.For) and src(x.target) == pr]
+        lst = [v for x in lp for _, v in stores_to(f, src(x.iter))
+               if v is not None]
+        okl = any(isinstance(y, ast.Call) and
+                  isinstance(y.func, ast.Attribute) and
+                  y.func.attr == 'get_pull_requests' and
+                  src(kw(y, 'src_branch') or ast.Constant(value=0)) ==
+                  names_v for v in lst for y in ast.walk(v))
+        rep.check(okl, R, f.qname + ': examines the pull requests of these '
+                  'names', f.where(n), 'pull requests come from %s' %
+                  [src(v) for v in lst])
     rms = [n for n in c.nodes.values() if n.kind == 'stmt' and
-           src(n.ast) == 'wbranch.remove()']
-    wb = [v for _, v in stores_to(f, 'wbranch') if v is not None]
+           isinstance(n.ast, ast.Expr) and isinstance(n.ast.value, ast.Call)
+           and isinstance(n.ast.value.func, ast.Attribute) and
+           n.ast.value.func.attr == 'remove' and
+           isinstance(n.ast.value.func.value, ast.Name) and
+           not n.ast.value.args and not n.ast.value.keywords]
+    wbv = src(rms[0].ast.value.func.value) if len(rms) == 1 else None
+    wb = [v for _, v in stores_to(f, wbv) if v is not None] if wbv else []
     ok = len(rms) == 1 and len(wb) == 1 and \
-        src(wb[0]) == 'branch_factory(job.git.repo, name)'
+        isinstance(wb[0], ast.Call) and \
+        src(wb[0].func) == 'branch_factory' and len(wb[0].args) == 2 and \
+        src(wb[0].args[1]) == nm
     rep.evaluated()
     rep.check(ok, R, f.qname + ': removes exactly the branch of that name',
               f.where(), 'removes %s bound to %s' % (
                   [src(n.ast) for n in rms], [src(v) for v in wb]))
-    ex = an.branch_nodes(f, lambda e: src(e) == 'wbranch.exists()', True)
+    ex = cond_branches(an, f, '%s.exists()' % wbv, True) if wbv else []
     for n in rms:
         ok, path = c.must_pass(ex, n.id)
         rep.check(ok and bool(ex), R, f.qname + ': removes only an existing '
@@ -535,19 +585,50 @@ def merge_cleanup(prog, an, rep):
             while loop in pm and not isinstance(loop, ast.For):
                 loop = pm[loop]
             rep.evaluated()
-            ok = isinstance(loop, ast.For) and src(loop.iter) == 'children' \
+            # the loop ranges over the rest of the wbranches parameter
+            # (first, *rest = wbranches): the first one stands for the
+            # source branch
+            rest = {st.targets[0].elts[1].value.id
+                    for st in walk_local(f.node, include_root=False)
+                    if isinstance(st, ast.Assign) and
+                    isinstance(st.targets[0], ast.Tuple) and
+                    len(st.targets[0].elts) == 2 and
+                    isinstance(st.targets[0].elts[1], ast.Starred) and
+                    src(st.value) == f.params[1]}
+            ok = isinstance(loop, ast.For) and src(loop.iter) in rest \
                 and src(x.func.value) == loop.target.id
             rep.check(ok, R, f.qname + ': after a merge its own integration '
                       'branches are removed', f.where(x), 'removes %s' %
                       src(x.func.value))
     g = need_func(an, Q + '.close_queued_pull_request')
-    wb = [v for _, v in stores_to(g, 'wbranches') if v is not None]
-    ok = len(wb) == 1 and src(wb[0]) == 'list(get_integration_branches(job))'
+    # the branches removed: elements of list(get_integration_branches(job))
+    gpm = parent_map(g.node)
+    rms = [x for x in prog.calls_in(g)
+           if isinstance(x.func, ast.Attribute) and x.func.attr == 'remove'
+           and isinstance(x.func.value, ast.Name)]
+    ok = bool(rms)
+    shown = []
+    for x in rms:
+        loop = x
+        while loop in gpm and not isinstance(loop, ast.For):
+            loop = gpm[loop]
+        it = canon(g, loop.iter) if isinstance(loop, ast.For) else '?'
+        shown.append(it)
+        ok = ok and isinstance(loop, ast.For) and \
+            src(x.func.value) == src(loop.target) and \
+            it == 'list(get_integration_branches(%s))' % g.params[0]
     rep.evaluated()
     rep.check(ok, R, g.qname + ': removes the integration branches of the '
-              'merged pull request', g.where(), 'wbranches = %s' %
-              [src(v) for v in wb])
-    srcb = [src(v) for _, v in stores_to(g, 'src') if v is not None]
-    rep.check(any('branch_factory(repo, pull_request.src_branch)' in x
-                  for x in srcb), R, g.qname + ': job.git.src_branch is the '
-              'merged PR\'s source', g.where(), 'src = %s' % srcb)
+              'merged pull request', g.where(), 'removes elements of %s' %
+              shown)
+    # job.git.src_branch (what get_integration_branches names the w/
+    # branches after) is the merged pull request's source
+    sb = [canon(g, n.value) for n in walk_local(g.node, include_root=False)
+          if isinstance(n, ast.Assign) and any(
+              src(t) == g.params[0] + '.git.src_branch' for t in n.targets)]
+    rep.check(len(sb) == 1 and re.match(
+        r'^branch_factory\(%s\.git\.repo, %s\.project_repo\.'
+        r'get_pull_request\(int\(%s\)\)\.src_branch\)$' % (
+            g.params[0], g.params[0], g.params[1]), sb[0]) is not None, R,
+        g.qname + ': job.git.src_branch is the merged PR\'s source',
+        g.where(), 'job.git.src_branch = %s' % sb)
